@@ -201,7 +201,8 @@ class ReusableOptimizer(PathOptimizer):
             (key, make_hashable(self._suboptimizer_kwargs.get(key, default)))
             for key, default in self._get_path_relevant_opts()
         )
-        return hashlib.sha1(pickle.dumps(key)).hexdigest()
+        # n.b. not ``pickle.dumps``, which memoizes equal parts by identity
+        return hashlib.sha1(_dumps(key)).hexdigest()
 
     def hash_query(self, inputs, output, size_dict):
         """Hash the contraction specification, returning this and whether the
